@@ -67,6 +67,11 @@ def render(net, lex, opts=None):
     frames_x, pdus_x, isigs_x, ssigs_x, compu_x, units_x, base_x, constr_x = [], [], [], [], [], [], [], []
     base_types = {}
     units = {}
+    # further clusters (net["clusters"], optional): one and the same CAN-FRAME / PDU / I-SIGNAL is triggered on another CAN-CLUSTER too,
+    # with the ports (senders, receivers) of that cluster; nothing is drawn from the lexical stream for them
+    extra = net.get("clusters") or []
+    xtrigs = {c["name"]: {"frame": [], "pdu": [], "sig": []} for c in extra}
+    xports = {c["name"]: {} for c in extra}
 
     def base_type(s):
         enc = "IEEE754" if s["float"] else ("2C" if s["signed"] else "NONE")
@@ -117,6 +122,7 @@ def render(net, lex, opts=None):
         idtext = str(f["id"]) if not (L.level and L.rng.random() < 0.3) else hex(f["id"])
         kids.append(x.el("IDENTIFIER", text=idtext, depth=d + 6))
         frame_trigs.append(x.el("CAN-FRAME-TRIGGERING", kids, depth=d + 5))
+        trig_tail = kids[(4 if fports else 3):]        # addressing mode, CAN-FD behaviour, identifier: the same wherever the frame is triggered
         # frame
         fk = [sn(fname, d + 1), desc(f["comment"], d + 1), x.el("FRAME-LENGTH", text=f["size"], depth=d + 1),
               x.el("PDU-TO-FRAME-MAPPINGS", [x.el("PDU-TO-FRAME-MAPPING", [sn("map_" + fname, d + 4), x.el("PACKING-BYTE-ORDER", text="MOST-SIGNIFICANT-BYTE-LAST", depth=d + 4),
@@ -256,21 +262,80 @@ def render(net, lex, opts=None):
         if st_refs:
             ptk.append(x.el("I-SIGNAL-TRIGGERINGS", st_refs, depth=d + 6))
         pdu_trigs.append(x.el("PDU-TRIGGERING", ptk, depth=d + 5))
+        for c in extra:
+            r = c["frames"].get(fname)
+            if r is None:
+                continue
+            cn = c["name"]
+            cp = xports[cn]
+
+            def port(e, kind, name, direction):
+                cp.setdefault(e, []).append((kind, name, direction))
+                return P + "/Ecus/%s/Conn_%s_%s/%s" % (e, e, cn, name)
+            # receivers on this cluster: the ECUs with a FRAME-PORT IN ("rx") and, where the cluster states reception per signal, those of
+            # its I-SIGNAL-TRIGGERINGs ("receivers": signal name -> ECUs, with "signal_triggerings"; the schema makes them optional)
+            rx = sorted(set(r.get("rx", [])) | {e for s in f["signals"] for e in r["receivers"].get(s["name"], [])})
+            fp = [port(e, "FRAME-PORT", "fp_%s_%s" % (fname, e), "OUT") for e in r["tx"]] + [port(e, "FRAME-PORT", "fp_%s_%s_rx" % (fname, e), "IN") for e in rx]
+            pp = [port(e, "I-PDU-PORT", "pp_%s_%s" % (fname, e), "OUT") for e in r["tx"]] + [port(e, "I-PDU-PORT", "pp_%s_%s_rx" % (fname, e), "IN") for e in rx]
+            kids = [sn(ft_name, d + 5)]
+            if fp:
+                kids.append(x.el("FRAME-PORT-REFS", [ref("FRAME-PORT-REF", "FRAME-PORT", p, d + 7) for p in fp], depth=d + 6))
+            kids.append(ref("FRAME-REF", "CAN-FRAME", P + "/Frames/" + fname, d + 6))
+            kids.append(x.el("PDU-TRIGGERINGS", [x.el("PDU-TRIGGERING-REF-CONDITIONAL", [ref("PDU-TRIGGERING-REF", "PDU-TRIGGERING", P + "/Cluster/%s/Ch/%s" % (cn, pt_name), d + 8)], depth=d + 7)], depth=d + 6))
+            xtrigs[cn]["frame"].append(x.el("CAN-FRAME-TRIGGERING", kids + trig_tail, depth=d + 5))
+            refs = []
+            for s in f["signals"]:
+                if s["mux"] == "M" or not r.get("signal_triggerings"):
+                    continue
+                sp = [port(e, "I-SIGNAL-PORT", "sp_%s_%s" % (s["name"], e), "IN") for e in r["receivers"].get(s["name"], [])]
+                sp += [port(e, "I-SIGNAL-PORT", "sp_%s_%s_tx" % (s["name"], e), "OUT") for e in r["tx"]]
+                stk = [sn("ST_" + s["name"], d + 5)]
+                if sp:
+                    stk.append(x.el("I-SIGNAL-PORT-REFS", [ref("I-SIGNAL-PORT-REF", "I-SIGNAL-PORT", p, d + 7) for p in sp], depth=d + 6))
+                stk.append(ref("I-SIGNAL-REF", "I-SIGNAL", P + "/ISignals/" + s["name"], d + 6))
+                xtrigs[cn]["sig"].append(x.el("I-SIGNAL-TRIGGERING", stk, depth=d + 5))
+                refs.append(x.el("I-SIGNAL-TRIGGERING-REF-CONDITIONAL", [ref("I-SIGNAL-TRIGGERING-REF", "I-SIGNAL-TRIGGERING", P + "/Cluster/%s/Ch/ST_%s" % (cn, s["name"]), d + 8)], depth=d + 7))
+            ptk = [sn(pt_name, d + 5)]
+            if pp:
+                ptk.append(x.el("I-PDU-PORT-REFS", [ref("I-PDU-PORT-REF", "I-PDU-PORT", p, d + 7) for p in pp], depth=d + 6))
+            ptk.append(ref("I-PDU-REF", "MULTIPLEXED-I-PDU" if muxer is not None else "I-SIGNAL-I-PDU", P + "/Pdus/" + pdu_name, d + 6))
+            if refs:
+                ptk.append(x.el("I-SIGNAL-TRIGGERINGS", refs, depth=d + 6))
+            xtrigs[cn]["pdu"].append(x.el("PDU-TRIGGERING", ptk, depth=d + 5))
     ecu_x = []
     conn_refs = []
     for e in ecus:
         pk = [x.el(kind, [sn(name, d + 6), x.el("COMMUNICATION-DIRECTION", text=direction, depth=d + 6)], depth=d + 5) for kind, name, direction in ports[e]]
         conn = x.el("CAN-COMMUNICATION-CONNECTOR", [sn("Conn_" + e, d + 3), x.el("ECU-COMM-PORT-INSTANCES", pk, depth=d + 3)], depth=d + 2)
-        ecu_x.append(x.el("ECU-INSTANCE", [sn(e, d + 1), desc(net.get("ecu_comments", {}).get(e), d + 1), x.el("CONNECTORS", [conn], depth=d + 1)], depth=d))
+        conns = [conn]
+        for c in extra:
+            if e in c["ecus"]:       # an ECU has one connector per cluster it is attached to
+                pk = [x.el(kind, [sn(name, d + 6), x.el("COMMUNICATION-DIRECTION", text=direction, depth=d + 6)], depth=d + 5) for kind, name, direction in xports[c["name"]].get(e, [])]
+                conns.append(x.el("CAN-COMMUNICATION-CONNECTOR", [sn("Conn_%s_%s" % (e, c["name"]), d + 3), x.el("ECU-COMM-PORT-INSTANCES", pk, depth=d + 3)], depth=d + 2))
+        ecu_x.append(x.el("ECU-INSTANCE", [sn(e, d + 1), desc(net.get("ecu_comments", {}).get(e), d + 1), x.el("CONNECTORS", conns, depth=d + 1)], depth=d))
         conn_refs.append(x.el("COMMUNICATION-CONNECTOR-REF-CONDITIONAL", [ref("COMMUNICATION-CONNECTOR-REF", "CAN-COMMUNICATION-CONNECTOR", P + "/Ecus/%s/Conn_%s" % (e, e), d + 7)], depth=d + 6))
     channel = x.el("CAN-PHYSICAL-CHANNEL", [sn("Ch", d + 4), x.el("COMM-CONNECTORS", conn_refs, depth=d + 4), x.el("FRAME-TRIGGERINGS", frame_trigs, depth=d + 4),
                                             x.el("I-SIGNAL-TRIGGERINGS", sig_trigs, depth=d + 4), x.el("PDU-TRIGGERINGS", pdu_trigs, depth=d + 4)], depth=d + 3)
     cluster = x.el("CAN-CLUSTER", [sn("Main", d + 1), x.el("CAN-CLUSTER-VARIANTS", [x.el("CAN-CLUSTER-CONDITIONAL", [
         x.el("BAUDRATE", text=500000, depth=d + 3), x.el("PHYSICAL-CHANNELS", [channel], depth=d + 3), x.el("PROTOCOL-NAME", text="CAN", depth=d + 3)], depth=d + 2)], depth=d + 1)], depth=d)
 
+    clusters = [cluster]
+    for c in extra:
+        crefs = [x.el("COMMUNICATION-CONNECTOR-REF-CONDITIONAL", [ref("COMMUNICATION-CONNECTOR-REF", "CAN-COMMUNICATION-CONNECTOR", P + "/Ecus/%s/Conn_%s_%s" % (e, e, c["name"]), d + 7)], depth=d + 6)
+                 for e in ecus if e in c["ecus"]]
+        xt = xtrigs[c["name"]]
+        ch = x.el("CAN-PHYSICAL-CHANNEL", [sn("Ch", d + 4), x.el("COMM-CONNECTORS", crefs, depth=d + 4), x.el("FRAME-TRIGGERINGS", xt["frame"], depth=d + 4),
+                                           x.el("I-SIGNAL-TRIGGERINGS", xt["sig"], depth=d + 4), x.el("PDU-TRIGGERINGS", xt["pdu"], depth=d + 4)], depth=d + 3)
+        cl = x.el("CAN-CLUSTER", [sn(c["name"], d + 1), x.el("CAN-CLUSTER-VARIANTS", [x.el("CAN-CLUSTER-CONDITIONAL", [
+            x.el("BAUDRATE", text=c.get("baudrate", 250000), depth=d + 3), x.el("PHYSICAL-CHANNELS", [ch], depth=d + 3), x.el("PROTOCOL-NAME", text="CAN", depth=d + 3)], depth=d + 2)], depth=d + 1)], depth=d)
+        if c.get("before_main"):
+            clusters.insert(0, cl)
+        else:
+            clusters.append(cl)
+
     def pkg(name, elements):
         return x.el("AR-PACKAGE", [sn(name, 5), x.el("ELEMENTS", elements, depth=5)], depth=4)
-    pkgs = [pkg("Cluster", [cluster]), pkg("Ecus", ecu_x), pkg("Frames", frames_x), pkg("Pdus", pdus_x), pkg("ISignals", isigs_x), pkg("SystemSignals", ssigs_x),
+    pkgs = [pkg("Cluster", clusters), pkg("Ecus", ecu_x), pkg("Frames", frames_x), pkg("Pdus", pdus_x), pkg("ISignals", isigs_x), pkg("SystemSignals", ssigs_x),
             pkg("BaseTypes", base_x), pkg("CompuMethods", compu_x), pkg("Units", units_x), pkg("Constrs", constr_x)]
     pkgs = L.order(pkgs)
     root = x.el("AUTOSAR", [x.el("AR-PACKAGES", [x.el("AR-PACKAGE", [sn(ROOT, 3), x.el("AR-PACKAGES", pkgs, depth=3)], depth=2)], depth=1)],
